@@ -1,6 +1,9 @@
 use self::search_tree_branch::SearchTreeBranch;
 use crate::model::network::vertex_id::VertexId;
+#[cfg(not(all(kani, feature = "verif-models")))]
 use std::collections::HashMap;
+#[cfg(all(kani, feature = "verif-models"))]
+use crate::util::verif_collections::HashMap;
 
 pub mod a_star;
 pub mod backtrack;
